@@ -238,9 +238,13 @@ class Group:
             labels:  list of labels to remove
         """
         for type_ in ['sidechain', 'backbone', 'coulomb']:
-            matches = list(
-                filter(lambda d: d.label
-                       in labels, [d for d in self.determinants[type_]]))
+            # the penalised groups themselves, not everything that happens to
+            # carry the same label (hetero-atom labels have no residue number);
+            # determinants from the iterative scheme refer to the Iterative
+            # wrapper of the group
+            matches = [d for d in self.determinants[type_]
+                       if any(getattr(d.group, 'group', d.group) is g
+                              for g in labels)]
             for match in matches:
                 self.determinants[type_].remove(match)
 
